@@ -103,6 +103,8 @@ func openEnvIn(keep string, cfg int, schema schemaSpec, maxSize int) (*shardEnv,
 		e.cm = cache.NewManager(-1)
 	case 5: // in-memory backend, caching disabled: every read decodes from the store
 		e.cm = cache.NewManager(0)
+	case 6: // bbolt, a finite budget that is never reached (the shipped default is 1 GiB): the accounting of the manager runs after every request
+		e.cm = cache.NewManager(1 << 30)
 	}
 	if !isMemCfg(cfg) {
 		e.path = filepath.Join(dir, "sharddb.bbolt")
